@@ -528,18 +528,17 @@ theorem asFunction_closed (g : Graph) (po : List (String × Nat)) (funcs : List 
       have h2 := List.all_eq_true.mp h1 x hx
       simpa using h2
 
-/-! ### opset imports of the extracted function (after fix 35ad500; C07-D5 before it) -/
+/-! ### opset imports of the extracted function (fixes 35ad500 and 04d2d07; C07-D5, C07-D9 before) -/
 
-/-- Since 35ad500 the function's imports are filtered from the model's imports overridden by the
-container's own (`mergeOpsets`).  Hence, wherever the match sits — main graph, function body, or an
-`If`/`Loop` body whose own import dict is empty — **every domain the function's nodes use and the
-model imports is imported by the function**, at the container's version when the container
-declares one, else at the model's. -/
-theorem asFunction_imports_used (g : Graph) (main lo : List (String × Nat)) (funcs : List Func) (m : Match)
-    (call call' : Node) (fn : Func)
-    (h : asFunction g (mergeOpsets main lo) funcs m [call] = some (call', fn)) :
+/-- Wherever the match sits, **every domain the function's nodes use and the model imports is
+imported by the extracted function**: for a match in the main graph or in an `If`/`Loop` body at
+the *model's* version (whatever the body's own dict holds); for a match inside a model-local
+function at that function's version when it declares one, else at the model's. -/
+theorem asFunction_imports_used (isFunc : Bool) (g : Graph) (main lo : List (String × Nat))
+    (funcs : List Func) (m : Match) (call call' : Node) (fn : Func)
+    (h : asFunction g (parentOpsets isFunc main lo) funcs m [call] = some (call', fn)) :
     ∀ n ∈ fn.body.nodes, ∀ v, main.lookup n.domain = some v →
-      fn.opsets.lookup n.domain = some ((lo.lookup n.domain).getD v) := by
+      fn.opsets.lookup n.domain = some (if isFunc then (lo.lookup n.domain).getD v else v) := by
   intro n hn v hv
   have hs := asFunction_structure g _ funcs m call call' fn h
   rw [hs.1] at hn
@@ -555,23 +554,53 @@ theorem asFunction_imports_used (g : Graph) (main lo : List (String × Nat)) (fu
         obtain ⟨_, h2⟩ := h
         subst h2
         simp only
-        rw [lookup_filter_key (mergeOpsets main lo)
+        rw [lookup_filter_key (parentOpsets isFunc main lo)
           (fun k => ((g.nodes.filter fun n => m.nodes.contains n.id).map (·.domain)).contains k) n.domain
           (by simpa using ⟨n, by simpa using hn, rfl⟩)]
-        exact mergeOpsets_lookup_main main lo n.domain v hv
+        unfold parentOpsets
+        cases isFunc with
+        | true => simpa using mergeOpsets_lookup_main main lo n.domain v hv
+        | false => simpa using mergeOpsets_lookup_over lo main n.domain v hv
+
+/-- Inside a model-local function, a domain only the function imports (the main graph lacks it) is
+imported by the extracted function too. -/
+theorem asFunction_imports_function_only_domain (g : Graph) (main lo : List (String × Nat))
+    (funcs : List Func) (m : Match) (call call' : Node) (fn : Func)
+    (h : asFunction g (parentOpsets true main lo) funcs m [call] = some (call', fn)) :
+    ∀ n ∈ fn.body.nodes, ∀ v, lo.lookup n.domain = some v → fn.opsets.lookup n.domain = some v := by
+  intro n hn v hv
+  have hs := asFunction_structure g _ funcs m call call' fn h
+  rw [hs.1] at hn
+  unfold asFunction at h
+  simp only at h
+  split at h
+  · exact absurd h (by simp)
+  · split at h
+    · exact absurd h (by simp)
+    · split at h
+      · exact absurd h (by simp)
+      · simp only [Option.some.injEq, Prod.mk.injEq] at h
+        obtain ⟨_, h2⟩ := h
+        subst h2
+        simp only
+        rw [lookup_filter_key (parentOpsets true main lo)
+          (fun k => ((g.nodes.filter fun n => m.nodes.contains n.id).map (·.domain)).contains k) n.domain
+          (by simpa using ⟨n, by simpa using hn, rfl⟩)]
+        simpa [parentOpsets] using mergeOpsets_lookup_over main lo n.domain v hv
 
 def d5Body : Graph :=
   .mk [] [] [.mk 1 "Neg" "" "" [some "x"] ["n"] [] [] [] [], .mk 2 "Relu" "" "" [some "n"] ["t"] [] [] [] []] ["t"]
 def d5Match : Match := { root := 2, nodes := [2, 1], bindings := [(0, some "x")], outputs := ["t"] }
 def d5Call : Node := .mk 3 "NR" "local" "" [some "x"] ["%3_0"] [] [] [] []
 
-/-- regression (the C07-D5 witness): a match inside an `If` body, whose own import dict holds only
-what `try_rewrite` put there (`local`); the model imports the default domain at 18 — the function
-holding `Neg`/`Relu` now imports it -/
+/-- regression (C07-D5 and C07-D9 witnesses): a match inside an `If` body whose own dict holds what
+`try_rewrite`/`_update_opset_imports` put there — `local`, and the default version 1 for the
+default domain; the model imports the default domain at 18 — the function imports it at 18 -/
 theorem asFunction_in_body_has_opset :
-    ∃ call fn, asFunction d5Body (mergeOpsets [("", 18)] [("local", 1)]) [] d5Match [d5Call] = some (call, fn) ∧
+    updOpsets [] [("", none)] = some [("", 1)] ∧
+    ∃ call fn, asFunction d5Body (parentOpsets false [("", 18)] [("", 1), ("local", 1)]) [] d5Match [d5Call] = some (call, fn) ∧
       fn.opsets.lookup "" = some 18 ∧ fn.body.nodes.any (·.domain == "") = true := by
-  refine ⟨_, _, rfl, ?_, ?_⟩ <;> decide
+  refine ⟨by decide, _, _, rfl, ?_, ?_⟩ <;> decide
 
 /-- Before 35ad500 the imports were filtered from the container's own dict alone: in a body that
 dict is empty after deserialisation, so the function holding `Neg`/`Relu` imported no opset for the
@@ -580,6 +609,16 @@ theorem asFunction_in_body_prefix_refuted :
     ∃ call fn, asFunction d5Body [("local", 1)] [] d5Match [d5Call] = some (call, fn) ∧
       fn.opsets.lookup "" = none ∧ fn.body.nodes.any (·.domain == "") = true := by
   refine ⟨_, _, rfl, ?_, ?_⟩ <;> decide
+
+/-- Between 35ad500 and 04d2d07 the container's dict overrode the model's for every container: a
+body's `"" ↦ 1` (the default `_update_opset_imports` records for an unversioned node) beat the
+model's 18 (replayed then: onnx.checker "FunctionOp imports version 1 whereas model imports
+version 18"). -/
+theorem asFunction_in_body_stale_default_version_prefix_refuted :
+    ∃ call fn, asFunction d5Body (mergeOpsets [("", 18)] [("", 1), ("local", 1)]) [] d5Match [d5Call] = some (call, fn) ∧
+      fn.opsets.lookup "" = some 1 := by
+  refine ⟨_, _, rfl, ?_⟩
+  decide
 
 /-! ## C07-D2 — one pass need not terminate: the replacement nodes are visited next -/
 
